@@ -1,5 +1,5 @@
 """small engine-level helpers shared by group files"""
-from pyvc import sym
+from pyvc import sym, abstract as ab
 from pyvc.sym import PObj, i_cmp, b_and
 
 
@@ -7,3 +7,26 @@ def render_setting_code(c, name):
     code = c.named_int('code_' + name, 1, 110)
     c.assume(b_and(i_cmp('!=', code, 38), i_cmp('!=', code, 48), i_cmp('!=', code, 58)))
     return PObj('AnsiSetting', {'_str': sym.mk_rope([('istr', code)])})
+
+
+def char_text(c, tag, n, lo=None, hi=None, esc_free=False):
+    cps = []
+    for i in range(n):
+        cp = c.named_int('%s%d' % (tag, i), lo, hi) if lo is not None else c.named_int('%s%d' % (tag, i), 0, 0x10FFFF)
+        if esc_free:
+            c.assume(i_cmp('!=', cp, 27))
+        cps.append(cp)
+    return sym.s_from_chars(cps)
+
+
+def hybrid_string(c, tag, n):
+    """AnsiString with an abstract well-formed table over a text of n symbolic characters"""
+    ab.install(c)
+    tb = ab.fresh_table(c, 'tbl_' + tag)
+    text = char_text(c, 'c' + tag, n)
+    obj = PObj('AnsiString', {'_fmts': tb, '_s': text})
+    if not hasattr(c, 'abs_tables'):
+        c.abs_tables = []
+    c.abs_tables.append(tb)
+    c.assume(ab.WFP(tb.term, sym.Z(n)))
+    return obj
